@@ -453,9 +453,37 @@ def element_id(ctx: Ctx):
 def unknown_refs(ctx: Ctx):
     sv = ctx.repo.cls("collator.py", "SortByValueCollator")
     m = ctx.repo.lookup(sv, "_iter_fixed_idxs")
-    src = ast.unparse(m.node)
-    ok = "if fixed_element_id not in element_idxs_by_id:\n            continue" in src
-    ctx.ob("unknown-ignored", "collator.py::SortByValueCollator._iter_fixed_idxs", ok, True, ok, "a fixed id that matches nothing (incl. None) is skipped")
+    # decision table (DECTAB) of the generator summarised as the list it yields: known ids (0 included) give their payload
+    # idx in the listed order, ids matching nothing (stale, None) are skipped, nothing raises
+    from ..dectab import DTop, ModelInterp, Raises
+
+    where_f = "collator.py::SortByValueCollator._iter_fixed_idxs"
+    body = expand(ctx.repo, sv, "_iter_fixed_idxs", bind={"fixed_element_ids": ast.Name(id="fixed_element_ids", ctx=ast.Load())}, stop=lambda mm: mm.name == "_element_ids")
+    ids = (5, 0, "x", 7)
+    bad, undec = [], None
+    for fixed, want_v in (((0,), [1]), ((7, 5), [3, 0]), ((9, "x", None, 0), [2, 1]), ((), []), ((None,), []), (("zz",), [])):
+        def atoms(x, fixed=fixed):
+            t = u(x)
+            if t == "self._element_ids":
+                return ids
+            if t == "fixed_element_ids":
+                return fixed
+            raise KeyError
+
+        try:
+            got = list(ModelInterp(atoms).ev(body))
+        except Raises as r:
+            bad.append(f"fixed ids {fixed}: raises {r.etype}")
+            continue
+        except DTop as t:
+            undec = str(t)
+            break
+        if got != want_v:
+            bad.append(f"fixed ids {fixed} -> {got}, specified {want_v}")
+    if undec:
+        ctx.undecided("unknown-ignored", where_f, "DECTAB: " + undec, "known ids -> their idx in listed order; unknown ids skipped")
+    else:
+        ctx.ob("unknown-ignored", where_f, bad[:3] or "6 id lists", "known ids (0 included) -> their payload idx in listed order; ids matching nothing (incl. None) skipped; nothing raises", not bad, "a fixed id that matches nothing (incl. None) is skipped")
     ex = ctx.repo.cls("collator.py", "ExplicitOrderCollator")
     m = ctx.repo.lookup(ex, "_element_order_descriptors")
     from ..orderkit import explicit_order_facts
